@@ -48,6 +48,7 @@ let parse_op (toks : string list) (impl_toks : string list) : lop =
   | "prog" :: cb :: rest -> LProg (z_of_string cb, List.map parse_action (split_on ";" rest))
   | ["depth"; n] -> LDepth (z_of_string n)
   | ["peer"; i; "data"; n] -> LPeer (z_of_string i, PData (z_of_string n))
+  | ["peer"; i; "kill"] -> LPeer (z_of_string i, PKill)
   | ["peer"; i; "close"] -> LPeer (z_of_string i, PClose)
   | ["peer"; i; "rst"] -> LPeer (z_of_string i, PRst)
   | ["peer"; i; "drain"; n] -> LPeer (z_of_string i, PDrain (z_of_string n))
@@ -138,7 +139,7 @@ let run (cases : case list) =
           os := s';
           let cl = int_of_nat cl in
           if cl = 99 then oracle_live := false
-          else if cl = 17 then report_oracle ci i "17" op ("obs=[" ^ impl ^ "]")    (* soft clause: the ledger keeps judging *)
+          else if cl = 17 || cl = 21 then report_oracle ci i (string_of_int cl) op ("obs=[" ^ impl ^ "]")    (* soft clauses: the ledger keeps judging *)
           else if cl <> 0 then begin report_oracle ci i (string_of_int cl) op ("obs=[" ^ impl ^ "]"); oracle_live := false end
         end
       end) c.steps) cases
